@@ -227,8 +227,20 @@ import mypy.build as B  # noqa: E402
 import mypy.cache as C  # noqa: E402
 import mypy.errors as ER  # noqa: E402
 
+def os_stat_contract(I, args, kwargs):
+    """os.stat(path): what the file system says NOW -- not the snapshot the file system cache took when
+    the source was read and hashed (BuildManager.get_stat); the two may differ"""
+    may_fail(I, "os.stat")
+    k = len([e for e in I.ctx.events if e[0] == "os.stat"])
+    st = I.make(TObj(FR.FakeStat), f"fresh_stat{k}")
+    ev(I, "os.stat", args[0], st)
+    return st
+
+
 WC_OV = dict(FR.FC_OV)
 WC_OV.update({
+    "posix:stat": os_stat_contract, "os:stat": os_stat_contract,
+    "mypy.build:BuildManager.maybe_swap_for_shadow_path": lambda I, a, k: a[1],
     "mypy.build:BuildManager.getmtime": mgr_getmtime_contract,
     "mypy.build:get_cache_names": cache_names_contract,
     "contracts.spec_store:FakeStore.write": store_write_contract,
